@@ -1,6 +1,7 @@
 package main
 
 import (
+	"go/types"
 	"go/ast"
 	"go/token"
 	"strings"
@@ -101,7 +102,64 @@ func runC06(c *Ctx) {
 				}
 			}
 		}
-		okA := viaDeleteFunc
+		// maps.DeleteFunc(data, func(_, assets) bool { maps.DeleteFunc(assets, isZero); return len(assets) == 0 })
+		nested := false
+		if delAsset == nil && delPolicy == nil {
+			exactZeroPred := func(v ssa.Value) bool {
+				var pred *ssa.Function
+				switch x := v.(type) {
+				case *ssa.MakeClosure:
+					pred, _ = x.Fn.(*ssa.Function)
+				case *ssa.Function:
+					pred = x
+				}
+				if pred == nil || len(pred.Params) != 2 {
+					return false
+				}
+				for _, in := range fnInstrs(pred) {
+					if r, ok := in.(*ssa.Return); ok {
+						t := trace(r.Results[0])
+						if !(strings.HasPrefix(t, "amountIsZero") && strings.HasSuffix(t, "(p1)")) {
+							return false
+						}
+					}
+				}
+				return true
+			}
+			for _, ci := range allCalls(fn) {
+				if !strings.HasPrefix(calleeName(ci.Common()), "maps.DeleteFunc") || len(ci.Common().Args) != 2 || trace(ci.Common().Args[0]) != "p0" {
+					continue
+				}
+				var outer *ssa.Function
+				switch x := ci.Common().Args[1].(type) {
+				case *ssa.MakeClosure:
+					outer, _ = x.Fn.(*ssa.Function)
+				case *ssa.Function:
+					outer = x
+				}
+				if outer == nil || len(outer.Params) != 2 {
+					continue
+				}
+				var inner ssa.CallInstruction
+				for _, cj := range allCalls(outer) {
+					if strings.HasPrefix(calleeName(cj.Common()), "maps.DeleteFunc") && len(cj.Common().Args) == 2 && trace(cj.Common().Args[0]) == "p1" && exactZeroPred(cj.Common().Args[1]) {
+						inner = cj
+					}
+				}
+				okRet := inner != nil
+				for _, in := range fnInstrs(outer) {
+					if r, ok := in.(*ssa.Return); ok {
+						if trace(r.Results[0]) != "(len(p1) == 0)" || !(inner != nil && (inner.Block() == r.Block() && precedes(inner.(ssa.Instruction), r) || inner.Block().Dominates(r.Block()))) {
+							okRet = false
+						}
+					}
+				}
+				if okRet {
+					nested = true
+				}
+			}
+		}
+		okA := viaDeleteFunc || nested
 		if delAsset != nil && !viaDeleteFunc {
 			v := c.mustPass(fn, []ssa.Instruction{delAsset.(ssa.Instruction)}, func(f string) bool {
 				return strings.HasPrefix(f, "T:call:ledger/common.amountIsZero(")
@@ -115,7 +173,7 @@ func runC06(c *Ctx) {
 			}
 		}
 		c.Check(okA, "prune-exactly-zeros", key+":assets", fn.Pos(), "an asset entry is deleted exactly when amountIsZero holds", "pruneZeroAssets does not delete exactly the zero-quantity entries")
-		okP := false
+		okP := nested
 		if delPolicy != nil {
 			v := c.mustPass(fn, []ssa.Instruction{delPolicy.(ssa.Instruction)}, func(f string) bool {
 				return strings.HasPrefix(f, "len(next(range(p0))#2) == 0")
@@ -193,7 +251,7 @@ func runC06(c *Ctx) {
 			default:
 				if strings.HasPrefix(vt, "addAmounts") {
 					a0 := vt
-					okArgs := strings.Contains(a0, "Asset(p0,next(range(data<p1))#1") && strings.Contains(a0, "next(range(next(range(data<p1))#2))#2")
+					okArgs := (strings.Contains(a0, "Asset(p0,next(range(data<p1))#1") || strings.Contains(a0, "lookup(lookup(data<p0,next(range(data<p1))#1)#0,next(range(next(range(data<p1))#2))#1)") || strings.Contains(a0, "lookup(lookup(data<p0,next(range(data<p1))#1),next(range(next(range(data<p1))#2))#1)")) && strings.Contains(a0, "next(range(next(range(data<p1))#2))#2")
 					c.Check(okArgs, "add-owns-its-storage", key+":quantity", mu.Pos(), "stores addAmounts(receiver's current quantity of the key, operand's quantity)", "the quantity stored is "+shortArg(vt)+", not addAmounts(receiver[key], operand[key])")
 					// key identity
 					kt := trace(mu.Key)
@@ -252,8 +310,35 @@ func runC06(c *Ctx) {
 		}
 		c.Check(nEq >= 1, "compare-zero-insensitive", key+":amountsEqual", fn.Pos(), "quantities are compared with amountsEqual", "Compare does not compare quantities through amountsEqual")
 		raw := 0
+		// reading a single quantity out of the raw maps is what Asset() does too; what must not come from the raw maps
+		// is anything that sees their zero entries: a length, an iteration, a presence test
+		var onlyLookups func(v ssa.Value, d int) bool
+		onlyLookups = func(v ssa.Value, d int) bool {
+			if d > 3 {
+				return false
+			}
+			for _, r := range *v.Referrers() {
+				switch x := r.(type) {
+				case *ssa.UnOp:
+					if !onlyLookups(x, d+1) {
+						return false
+					}
+				case *ssa.Lookup:
+					if x.X != v || x.CommaOk {
+						return false
+					}
+					if _, isMap := x.Type().Underlying().(*types.Map); isMap && !onlyLookups(x, d+1) {
+						return false
+					}
+				case *ssa.DebugRef:
+				default:
+					return false
+				}
+			}
+			return true
+		}
 		for _, in := range fnInstrs(fn) {
-			if fa, ok := in.(*ssa.FieldAddr); ok && fieldName(fa.X.Type(), fa.Field) == "data" {
+			if fa, ok := in.(*ssa.FieldAddr); ok && fieldName(fa.X.Type(), fa.Field) == "data" && !onlyLookups(fa, 0) {
 				raw++
 			}
 		}
